@@ -181,6 +181,9 @@ func main() {
 			fileSets = append(fileSets, []string{a, b})
 		}
 	}
+	// the unopenable match must also sort before a regular log
+	mandatory := len(fileSets)
+	fileSets = append(fileSets, []string{"devnull", "two"}, []string{"devnull", "midblank"})
 	var progSets [][]int
 	for i := range progs {
 		progSets = append(progSets, []int{i})
@@ -194,7 +197,7 @@ func main() {
 	}
 	for pi, ps := range progSets {
 		for fi, fs := range fileSets {
-			if c.Quick() && (pi+fi)%5 != 0 {
+			if c.Quick() && (pi+fi)%5 != 0 && !(fi >= mandatory && fi < mandatory+2 && pi%4 == 0) {
 				continue // quick: a fixed fifth of the (program set × file set) grid; thorough: all of it
 			}
 			var pn []string
